@@ -197,6 +197,8 @@ NOOP_CALLS = {"print", "warn", "tqdm"}
 
 def _value_signature(v, depth=0):
     """Identity / write-counter signature of a value (depth 2): changes when the value is mutated in place."""
+    if hasattr(v, "_pyvc_signature"):
+        return v._pyvc_signature()  # model-defined value kinds (e.g. pointwise arrays of pyvc/lib/c20_models.py)
     if isinstance(v, SymArr):
         return ("arr", id(v), v.writes, id(v.fn))
     if isinstance(v, Obj):
@@ -435,7 +437,12 @@ class Interp:
             base = self.eval(t.value, env)
             key = self.eval_index(t.slice, env)
             cur = self.getitem(base, key)
-            new = self.binop(op, cur, self.eval(node.value, env))
+            if isinstance(base, SymArr):
+                new = self.binop(op, cur, self.eval(node.value, env))  # a[i] op= v on an array: functional element update
+            else:
+                # container[k] op= v is container[k] = container[k].__iop__(v): an array / list held in a dict or list is
+                # updated IN PLACE (every alias of that element sees it), anything immutable is rebound
+                new = self.inplace(op, cur, self.eval(node.value, env))
             self.setitem(base, key, new)
         elif isinstance(t, ast.Attribute):
             base = self.eval(t.value, env)
@@ -681,6 +688,9 @@ class Interp:
             # `for x in obj`: the iterator protocol calls obj.__iter__() (used through its contract / inlined)
             it = self.call(self.getattr(it, "__iter__"), [], {})
         spec = self.loop_spec(node)
+        lm = getattr(self.reg, "loop_models", {}).get(type(it)) if spec is None else None
+        if lm is not None and lm(self, node, env, it) is not NotImplemented:
+            return  # reg.loop_models[type] = handler(interp, for-node, env, iterable): the model summarised the whole loop (C19: pointwise loops over dict keys)
         seq = self.iter_values(it)
         if seq is not None and spec is None:
             broke = False
@@ -1308,6 +1318,15 @@ class Interp:
         return acc
 
     def _comp(self, node, env, mk, add, elt):
+        cms = getattr(self.reg, "comp_models", None)
+        if cms and len(node.generators) == 1:
+            # reg.comp_models[type] = handler(interp, comprehension-node, env, iterable) -> value | NotImplemented (C19: key subsets of a dict)
+            it0 = self.eval(node.generators[0].iter, env)
+            h = cms.get(type(it0))
+            if h is not None:
+                r = h(self, node, env, it0)
+                if r is not NotImplemented:
+                    return r
         acc = mk()
         self._comp_rec(node.generators, 0, Env(env.globs, env), lambda e: add(acc, self.eval(elt, e)))
         return acc
